@@ -1645,7 +1645,7 @@ pub(crate) async fn verif_run_sse_pipe(
     strict_validation: bool,
     log_path: &std::path::Path,
 ) -> (Vec<Event>, u64) {
-    let (sender, _rx) = broadcast::channel::<Event>(65_536);
+    let (sender, _rx) = broadcast::channel::<Event>(16);
     let buffer: Arc<Mutex<Vec<Event>>> = Arc::new(Mutex::new(Vec::new()));
     let event_log = EventLog::new(log_path).expect("verif event log");
     let sink = EventSink {
